@@ -98,6 +98,23 @@ def run(ctx):
                 for lo in (7, 4, 0):
                     cases.append(vlib.Case(dn, {'s.bbc': data}, ['--dialect', dn, '--listo', str(lo), '@s.bbc'], tool='basic', meta={'style': 'stale-buffer'}))
     ctx.count('stale-buffer-cases', 6 * 4 * 4 * 3)
+    # line-length bytes on and around the smallest possible line, followed by little or much further input (a length below the header
+    # size must be refused before anything is copied, however much input follows), for every dialect, as a file and as standard input
+    for dn in ('6502', 'ARM', 'Mac', 'PDP11', 'Z80', 'Windows'):
+        idx_, be_, canon_ = basicprog.DIALECTS[dn]
+        for ln_ in (0, 1, 2, 3, 4, 5, 6, 255):
+            for tail_ in (0, 5, 300, 1200):
+                data = (bytes([0x0D, 0x00, 0x0A, ln_]) if be_ else bytes([ln_, 0x0A, 0x00])) + b'A' * tail_
+                cases.append(vlib.Case(dn, {'l.bbc': data}, ['--dialect', dn, '@l.bbc'], tool='basic', meta={'style': 'short-length'}))
+                if ln_ in (2, 3, 4) and tail_ in (300, 1200):
+                    cases.append(vlib.Case(dn, {}, ['--dialect', dn, '--listo', '0', '-'], tool='basic', stdin=data, meta={'style': 'short-length'}))
+    ctx.count('short-length-cases', 6 * 8 * 4)
+    # an input "file" that cannot be read at all (a directory: opening works, the first read fails), alone and between good files
+    for dn in ('6502', 'Z80'):
+        for argv_ in (['@adir'], ['@a0', '@adir'], ['@adir', '@a0'], ['@a0', '@adir', '@a0']):
+            c_ = vlib.Case(dn, {'a0': tiny if dn == '6502' else basicprog.encode([basicprog.Line(10, [basicprog.Item('tok', 0xF1)])], False)},
+                           ['--dialect', dn] + argv_, tool='basic', dest='adir', meta={'style': 'unreadable-input', 'nomodel': True})
+            cases.append(c_)
     # file names that look like printf formats, existing (ill-formed content) and missing
     for fn in ('100%sure%sthing.bbc', 'save%n.bbc', '%s%s%s%s%s%s%s%s', '%99999d.bbc', '%x%x%x%x.bbc'):
         cases.append(vlib.Case('6502', {fn: b'\x0D\x00'}, ['@' + fn], tool='basic', meta={'style': 'format-name'}))
@@ -105,10 +122,11 @@ def run(ctx):
         cases.append(vlib.Case('6502', {}, ['--dialect', fn, fn], tool='basic', meta={'style': 'format-name'}))
     for kind in ('asan', 'asan-ndebug'):
         impl = ctx.build(kind)
-        cs = cases if kind == 'asan' else [vlib.Case(c.tag, c.files, c.argv, tool='basic', stdin=c.stdin, meta=c.meta) for c in cases]
+        cs = cases if kind == 'asan' else [vlib.Case(c.tag, c.files, c.argv, tool='basic', stdin=c.stdin, meta=c.meta, dest=c.dest) for c in cases]
         vlib.run_cases(cs, bc.bins(impl))
         for c in cs:
-            bc.compare(ctx, c, 'e2e-hostile-' + kind)
+            if not c.meta.get('nomodel'):        # (the model's file system has files and no directories)
+                bc.compare(ctx, c, 'e2e-hostile-' + kind)
             i = c.impl
             ctx.oracle_cases += 1
             ctx.case((kind, tuple(c.argv), tuple(sorted(c.files.items())), c.stdin), True,
